@@ -20,6 +20,7 @@ type PropConfig struct {
 	Functions  []string `json:"functions"`   // functions under contract
 	SafetyOnly []string `json:"safety_only"` // functions checked for panics only (no contract needed)
 	Lemmas     []string `json:"lemmas"`
+	Sites      []string `json:"sites"`       // structural obligations: "<pkg>:<kind> <subject>" or "<pkg>:*"
 	NotDecided []string `json:"not_decided"`
 	Trusted    []string `json:"trusted_base"`
 }
@@ -174,7 +175,7 @@ func cmdCheck(args []string) int {
 	if *tier == "thorough" {
 		timeout = 60
 	}
-	var vcs []*VC
+	var vcs, siteVCs []*VC
 	type genFail struct{ fn, err string }
 	var genFails []genFail
 	var funcsUnder []string
@@ -223,10 +224,56 @@ func cmdCheck(args []string) int {
 		funcsUnder = append(funcsUnder, "lemma "+ln)
 		vcs = append(vcs, vc)
 	}
+	// structural obligations
+	sitePkgs := map[string]map[string]bool{}
+	var sitePkgOrder []string
+	for _, sdecl := range cfg.Sites {
+		k := strings.Index(sdecl, ":")
+		if k < 0 {
+			genFails = append(genFails, genFail{"sites " + sdecl, "bad sites entry"})
+			continue
+		}
+		pn, label := sdecl[:k], sdecl[k+1:]
+		if _, ok := sitePkgs[pn]; !ok {
+			sitePkgs[pn] = map[string]bool{}
+			sitePkgOrder = append(sitePkgOrder, pn)
+		}
+		sitePkgs[pn][label] = true
+	}
+	for _, pn := range sitePkgOrder {
+		var path string
+		for pp := range w.cfiles {
+			if shortPkg(pp) == pn {
+				path = pp
+			}
+		}
+		only := sitePkgs[pn]
+		want := len(only)
+		if only["*"] {
+			only = nil
+		}
+		vc, err := w.siteVC(path, only)
+		if err != nil {
+			genFails = append(genFails, genFail{"sites " + pn, err.Error()})
+			continue
+		}
+		n := 0
+		for _, it := range vc.Items {
+			if it.Kind == itOblig {
+				n++
+			}
+		}
+		if only != nil && n != want {
+			genFails = append(genFails, genFail{"sites " + pn, fmt.Sprintf("%d of %d listed structural declarations found in the contract file", n, want)})
+		}
+		funcsUnder = append(funcsUnder, "sites "+pn)
+		siteVCs = append(siteVCs, vc)
+	}
 	// vacuity canaries: `false` must not be provable at the end of each VC
 	for _, vc := range vcs {
 		vc.Items = append(vc.Items, Item{Kind: itOblig, Name: vc.Name + "#canary", Class: "canary", Term: "false", Desc: "vacuity canary: must NOT be provable"})
 	}
+	vcs = append(vcs, siteVCs...) // no canary for structural obligations
 	genT := time.Since(start).Seconds() - loadT
 
 	dir, _ := os.MkdirTemp("", "govc")
